@@ -34,9 +34,10 @@ def cp437_chars():
     return out
 
 
-def feature_programs():
+def feature_programs(tier='thorough'):
     """hand-written programs covering instruction kinds, literal contents, DATA
-    layouts and routine/label shapes the corpus leaves out"""
+    layouts and routine/label shapes the corpus leaves out (quick: the small
+    variants only; thorough: the same plus the large ones)"""
     P = []
 
     def add(name, src):
@@ -55,20 +56,50 @@ def feature_programs():
         'lbl2:', 'DATA "x"', 'READ a$, b$, c$', 'RESTORE lbl1', 'READ d$', 'RESTORE lbl2', 'READ e$']))
     add('data-many-parts', '\n'.join(
         [f'l{i}:\nDATA {i},"s{i}",' for i in range(40)] + ['READ a$', 'RESTORE l7', 'READ b$']))
-    add('many-labels', '\n'.join(
-        ['ON ERROR GOTO h', 'i% = 0'] +
-        [f'l{i}:\ni% = i% + 1\nIF i% > 100 THEN GOTO done\nGOSUB s{i % 7}' for i in range(30)] +
-        ['GOTO l3', 'done:', 'END'] +
-        [f's{i}:\nPRINT {i}\nRETURN' for i in range(7)] +
-        ['h:', 'RESUME NEXT']))
-    subs = []
-    for i in range(25):
-        subs.append(f'SUB p{i}(a%, b&, c!, d#, e$)\n  DIM loc{i} AS LONG\n  loc{i} = a% + b&\n'
-                    f'  PRINT loc{i}; c!; d#; e$\nEND SUB')
-        subs.append(f'FUNCTION f{i}%(x%)\n  f{i}% = x% + {i}\nEND FUNCTION')
-    add('many-routines', '\n'.join(
-        [f'DECLARE SUB p{i}(a%, b&, c!, d#, e$)\nDECLARE FUNCTION f{i}%(x%)' for i in range(25)] +
-        [f'p{i} f{i}%({i}), {i}&, {i}.5, {i}.25#, "s{i}"' for i in range(25)] + subs))
+    def many_labels(n):
+        return '\n'.join(
+            ['ON ERROR GOTO h', 'i% = 0'] +
+            [f'l{i}:\ni% = i% + 1\nIF i% > 100 THEN GOTO done\nGOSUB s{i % 4}' for i in range(n)] +
+            ['GOTO l3', 'done:', 'END'] +
+            [f's{i}:\nPRINT {i}\nRETURN' for i in range(4)] +
+            ['h:', 'RESUME NEXT'])
+
+    def many_routines(n):
+        subs = []
+        for i in range(n):
+            subs.append(f'SUB p{i}(a%, b&, c!, d#, e$)\n  DIM loc{i} AS LONG\n  loc{i} = a% + b&\n'
+                        f'  PRINT loc{i}; c!; d#; e$\nEND SUB')
+            subs.append(f'FUNCTION f{i}%(x%)\n  f{i}% = x% + {i}\nEND FUNCTION')
+        return '\n'.join(
+            [f'DECLARE SUB p{i}(a%, b&, c!, d#, e$)\nDECLARE FUNCTION f{i}%(x%)' for i in range(n)] +
+            [f'p{i} f{i}%({i}), {i}&, {i}.5, {i}.25#, "s{i}"' for i in range(n)] + subs)
+    add('many-labels-8', many_labels(8))
+    add('many-routines-5', many_routines(5))
+    if tier != 'quick':
+        add('many-labels-30', many_labels(30))
+        add('many-routines-25', many_routines(25))
+    add('globals-and-fields', '''
+TYPE allt
+  i AS INTEGER
+  l AS LONG
+  s AS SINGLE
+  d AS DOUBLE
+  t AS STRING
+END TYPE
+DIM SHARED gi AS INTEGER, gl AS LONG, gs AS SINGLE, gd AS DOUBLE, gt AS STRING
+DIM SHARED gr AS allt
+DIM lr AS allt
+gi = 1: gl = 2: gs = 3.5: gd = 4.5#: gt = "t"
+gr.i = gi: gr.l = gl: gr.s = gs: gr.d = gd: gr.t = gt
+lr.i = gr.i: lr.l = gr.l: lr.s = gr.s: lr.d = gr.d: lr.t = gr.t
+PRINT lr.i; lr.l; lr.s; lr.d; lr.t; gi; gl; gs; gd; gt
+x% = gs: y& = gd: z! = gl: w# = gl: v! = y&: u# = y&: q& = w#: r% = w#: o! = w#
+useg
+SUB useg
+  gi = gi + 1
+  PRINT gr.t; gr.d
+END SUB
+''')
     add('records-arrays', '''
 TYPE pt
   x AS INTEGER
@@ -390,6 +421,7 @@ class Checker:
         self.exe = exe
         self.programs = 0
         self.disagreements_checked = 0
+        self.current = None
         self.mnemonics = set()
 
     def run_models(self, results):
@@ -416,14 +448,22 @@ class Checker:
 
     def rep(self, sig, case, detail, found):
         self.disagreements_checked += 1
+        cur = self.current or {}
+        if sig in cur.get('expected_sigs', ()):
+            # a synthetic module built to be rejected by the checker: detection is the expected outcome
+            self.ctx.bump('synthetic-defect-detected:' + sig)
+            return 'expected'
         d = {'case': case}
         d.update(detail)
+        if cur.get('replay'):
+            d['replay'] = cur['replay']
         return self.ctx.report(sig, d, found)
 
     def check(self, suite, case, r, mo, frames_out=None):
         """all comparisons for one module"""
         ctx = self.ctx
         desc = case.get('desc', case)
+        self.current = case
         if isinstance(r, dict) and r.get('harness'):
             ctx.broken.append(f'correspondence {suite}: implementation worker failed: '
                               f'{r.get("stderr", "")[-300:]}')
@@ -617,6 +657,7 @@ class Checker:
         for case, r, ix in zip(cases, results, index):
             if ix is None:
                 continue
+            self.current = case
             k, names = ix
             o = outs[k]
             desc = case.get('desc', case)
@@ -657,7 +698,9 @@ def run_compiled_suite(ctx, ck, suite, progs):
     for pr in progs:
         for lvl, dbg in CONFIGS:
             cases.append({'src': pr['src'], 'level': lvl, 'debug': dbg,
-                          'desc': f"{pr['file']}#{pr['idx']} -O{lvl}{' -g' if dbg else ''}"})
+                          'desc': f"{pr['file']}#{pr['idx']} -O{lvl}{' -g' if dbg else ''}",
+                          'replay': {'fn': 'codecfn.compiled',
+                                     'case': {'src': pr['src'], 'level': lvl, 'debug': dbg}}})
     results = vlib.run_impl('codecfn.compiled', cases)
     mouts = ck.run_models(results)
     for c, r, mo in zip(cases, results, mouts):
@@ -728,7 +771,7 @@ def main(tier, seed):
     if tier == 'quick':
         idx = list(range(len(progs)))
         ctx.rng.shuffle(idx)
-        keep = sorted(idx[:110])
+        keep = sorted(idx[:60])
         progs_q = [progs[i] for i in keep]
     else:
         progs_q = progs
@@ -737,7 +780,7 @@ def main(tier, seed):
                     f'every module: parse/encode/disassemble/listing/assemble/decoder models, '
                     f'spec(listing) = disassembly, targets_ok, frame declarations; non-trivial = distinct source')
     run_compiled_suite(ctx, ck, 'corpus', progs_q)
-    feats = feature_programs()
+    feats = feature_programs(tier)
     ctx.rule.append(f'a2: {len(feats)} feature programs (all cp437 characters a literal can hold, DATA with '
                     f'empty items / many parts, 30 labels, 50 routines, records/arrays/shared/static, every '
                     f'operator and builtin, all devices) x 6 configurations')
@@ -757,6 +800,29 @@ def main(tier, seed):
 
 
 def replay(path):
+    """re-run the recorded case on the implementation and the model; exit 1 when
+    the recorded signature shows again"""
     d = json.load(open(path))
-    print(json.dumps(d, indent=1)[:6000])
-    return 0
+    first = d.get('first') or {}
+    rp = first.get('replay')
+    print(json.dumps({k: v for k, v in d.items() if k != 'first'}, indent=1)[:2000])
+    if not rp:
+        print(json.dumps(first, indent=1, default=str)[:6000])
+        print('no executable replay recorded for this entry (broken obligation or tie)')
+        return 1
+    ctx = Ctx(PROP, 'quick', 0, 'proof')
+    ctx.findings = []
+    exe = ctx.model('Codec')
+    ck = Checker(ctx, exe)
+    case = dict(rp['case'])
+    case['desc'] = 'replay'
+    r = vlib.run_impl(rp['fn'], [case])[0]
+    mo = ck.run_models([r])[0]
+    ck.check('replay', case, r, mo if mo is not None else {})
+    ck.check_frames('replay', [case], [r], [mo])
+    sigs = sorted(set(v['signature'] for v in ctx.violations))
+    for sg in sigs:
+        print('reproduced:', sg)
+    hit = d.get('signature') in sigs
+    print('recorded signature', d.get('signature'), 'reproduces' if hit else 'does not reproduce')
+    return 1 if hit else 0
